@@ -22,6 +22,9 @@ CODEMODS = [
     {"id": "pixee:python/harden-pickle-load", "pkg": "fickling", "alt": "Fickling", "src": space.PROGRAMS["pickle"]},
     {"id": "pixee:python/url-sandbox", "pkg": "security", "alt": "Security", "src": space.PROGRAMS["requests"]},
     {"id": "pixee:python/sandbox-process-creation", "pkg": "security", "alt": "SECURITY", "src": space.PROGRAMS["subprocess"]},
+    # two codemods of one run that need the same package: it must be declared once
+    {"id": "pixee:python/url-sandbox,pixee:python/sandbox-process-creation", "pkg": "security", "alt": "Security",
+     "src": space.PROGRAMS["requests"] + space.PROGRAMS["subprocess"].replace("import subprocess\n", "import subprocess  # second trigger\n")},
 ]
 
 
@@ -81,7 +84,7 @@ def run(chk: Check) -> None:
         cm = codemods[i % 2]  # detector-less ones: cheap
         add(m, by_states[json.dumps(m, sort_keys=True)], cm, ti, f"C14-s{i}")
     for i, (m, e) in enumerate(usable[:n]):
-        cm = codemods[i % len(codemods)] if i % 4 == 0 else codemods[i % 2]
+        cm = codemods[4] if i % 7 == 3 else (codemods[i % len(codemods)] if i % 4 == 0 else codemods[i % 2])
         add(m, e, cm, chk.rng.randrange(0, 6), f"C14-{i}")
     results = runner.run_many(scenarios)
     traces = []
